@@ -352,6 +352,8 @@ def run(tier, seed, jobs=16):
     dom = _domain(tier)
     results = common.pmap(_shard, [(tier, s) for s in range(NSHARDS)], jobs)
     acc = common.merge(results)
+    from . import ctx_contracts as _ctx      # run-time contracts of PrettyContext (exhaustive over field subsets)
+    _ctx.check(acc)
     acc['counters']['cpu_s'] = round(acc['counters'].get('cpu_s', 0), 1)
     acc['counters']['wall_s'] = round(time.time() - t0, 1)
     fam = {}
@@ -375,6 +377,9 @@ def run(tier, seed, jobs=16):
 
 
 def replay(case):
+    if isinstance(case, dict) and case.get('check') == 'ctx':
+        from . import ctx_contracts as _ctx
+        return _ctx.replay(case)
     vs = check_case(case['expr'], dict(case.get('kwargs') or {}), None)
     if vs:
         return {'violated': True, 'detail': '; '.join('%s: observed %s; expected %s'
